@@ -20,7 +20,7 @@ func registerC16() {
 		Rule: "PRNG streams rich in unknown messages, unknown fields of known messages and developer fields, in four variants (intact, truncated at a PRNG offset, file CRC " +
 			"corrupted, data record on an undefined local type); each decoded under all 8 combinations of {logger, unknown fields, unknown messages} through a counting reader " +
 			"and a logger that formats every argument; decoded content, error text and bytes consumed must be identical across the 8 runs, the lists absent when their option is " +
-			"off, sorted, and equal to the model's counts (failing streams: at least the completed records, at most completed + the record in flight); non-trivial: the model " +
+			"off, sorted, and equal to the model's counts (failing streams: at least the completed records, at most completed + the record in flight); family chains: 2-3 such streams concatenated and decoded by DecodeChained under the 8 option sets: every File of the chain must carry exactly its own file's lists; non-trivial: the model " +
 			"expects at least one unknown message and one unknown field; distinct by stream digest",
 		Assume: []string{
 			"definitions do not list the same unknown field number twice (the count would then be per occurrence, which the statement does not define)",
@@ -29,6 +29,7 @@ func registerC16() {
 		MinNontrivial: 300,
 		Families: []lib.Family{
 			{Name: "streams", N: func(t string) uint64 { return tierN(t, 40000, 1000000) }, Run: c16Case},
+			{Name: "chains", N: func(t string) uint64 { return tierN(t, 4000, 100000) }, Run: c16Chain},
 		},
 	})
 }
@@ -335,4 +336,65 @@ func boundsUM(got, lo, hi [][2]int) string {
 		}
 	}
 	return ""
+}
+
+// c16Chain: the unknown-item lists are per file, also inside a chain.
+func c16Chain(c *lib.Ctx, idx uint64) {
+	rng := lib.NewRand("C16.chains", idx)
+	n := 2 + rng.Intn(2)
+	var plans []*ref.Plan
+	var chain []byte
+	for i := 0; i < n; i++ {
+		ft := lib.FileTypes[(idx+uint64(i)*5)%uint64(len(lib.FileTypes))].Type
+		o := lib.GenOpts{FileType: ft, Records: 4 + rng.Intn(16), Locals: 1 + rng.Intn(4), Redefine: 20, BigEndian: 50, Unknown: 70, MaxFields: 3, Mesgs: lib.HostedMesgs(ft)}
+		p := lib.NewPlanGen(rng, o).Fill()
+		plans = append(plans, p)
+		chain = append(chain, p.Bytes()...)
+	}
+	c.SetInflight(chain)
+	for mask := 0; mask < 8; mask++ {
+		var opts []fit.DecodeOption
+		if mask&1 != 0 {
+			opts = append(opts, fit.WithLogger(&countingLogger{}))
+		}
+		if mask&2 != 0 {
+			opts = append(opts, fit.WithUnknownFields())
+		}
+		if mask&4 != 0 {
+			opts = append(opts, fit.WithUnknownMessages())
+		}
+		var files []*fit.File
+		var err error
+		o := lib.Guard(func() { files, err = fit.DecodeChained(lib.NewReader(chain, lib.Chunker{Kind: "whole"}), opts...) })
+		c.Eval()
+		if o.Panicked || o.Hang {
+			c.Violation(chain, "DecodeChained with options %03b panicked/hung: %s", mask, o.Panic)
+			return
+		}
+		if err != nil || len(files) != n {
+			c.Violation(chain, "DecodeChained with options %03b over %d well-formed files: %d files, error %v", mask, n, len(files), err)
+			return
+		}
+		for i, p := range plans {
+			ex, merr := lib.Expect(p, lib.ExpectOpts{})
+			if merr != nil || ex.Fail {
+				return
+			}
+			got := lib.FileContent(files[i])
+			if mask&2 == 0 && got.HasUF || mask&4 == 0 && got.HasUM {
+				c.Violation(chain, "options %03b: file %d of the chain carries an unknown list although its option is off", mask, i+1)
+				return
+			}
+			if mask&2 != 0 && fmt.Sprint(got.UnknownFields) != fmt.Sprint(ex.Content.UnknownFields) {
+				c.Violation(chain, "options %03b: file %d of a chain reports unknown fields %v, its own records give %v", mask, i+1, got.UnknownFields, ex.Content.UnknownFields)
+				return
+			}
+			if mask&4 != 0 && fmt.Sprint(got.UnknownMessages) != fmt.Sprint(ex.Content.UnknownMessages) {
+				c.Violation(chain, "options %03b: file %d of a chain reports unknown messages %v, its own records give %v", mask, i+1, got.UnknownMessages, ex.Content.UnknownMessages)
+				return
+			}
+		}
+	}
+	c.Count("chains", 1)
+	c.Nontrivial(chain)
 }
